@@ -131,6 +131,12 @@ def runtime_tables():
     return list(keyword.kwlist), reserved
 
 
+# names which a parser accepts as an alternative spelling of something the writer emits under another name
+XML_READ_ALIASES = {
+    "VALUE": "COMPARAM-REF/VALUE is the ODX 2.0 spelling of SIMPLE-VALUE (comparaminstance.py); written as SIMPLE-VALUE",
+}
+
+
 def xml_names():
     """tag / attribute names the from_et parsers read (string literals of find / findtext / iterfind /
     findall / get / attrib[...]) and the names which occur in the jinja templates of the writer"""
@@ -174,6 +180,7 @@ def xml_names():
         for e in json.load(f).get("findings", []):
             if e.get("property") == "C11":
                 gaps.update(e.get("xml_names", []))
+    reads -= set(XML_READ_ALIASES)
     return sorted(reads), sorted(writes), sorted(gaps)
 
 
